@@ -27,7 +27,7 @@ OPTION_SETS = [
 
 EXPR_SHAPES = ["- A", "NOT A", "- INT ( A )", "A + B", "- A ^ 2", "NOT A AND B", "A * ( B + C )", "ABS ( A ) + INT ( B )", "A$ + B$", "LEN ( A$ ) * 2",
                "A = B", "A < B AND C > D", "INT ( A ) + INT ( B )", "STR$ ( A ) + HEX$ ( B )", "ABS ( INT ( A ) )",
-               "LEFT$ ( INKEY$ , 1 )", "1E38 * 1E38", "&HFFFF"]
+               "LEFT$ ( INKEY$ , 1 )", "1E38 * 1E38", "&HFFFF", "&H0", "&H00 + A", "& H 0", "&H8000", "0", "- 0", ".0"]
 EXPR_CONTEXTS = ["10 Z = {e}", "10 PRINT {e}", "10 IF {e} THEN 10", "10 IF {e} THEN Z = 1 ELSE Z = 2", "10 FOR I = {e} TO 9 : NEXT I",
                  "10 Z ( {e} ) = 1", "10 ON {e} GOTO 10", "10 Z$ = {e}", "10 PLAY {e}", "10 SOUND {e} , 1", "10 IF {e} = \"A\" THEN 10",
                  "10 IF Y = 1 THEN 10 ELSE Z = {e}", "10 IF Y = 1 THEN Z = 1 ELSE IF Y = 2 THEN Z = {e}", "10 READ Q ( {e} )", "10 INPUT Q ( {e} )",
@@ -159,6 +159,42 @@ def reserved_lemma(ctx):
     ctx.sample({"lemma": "no accepted variable name truncates to a BASIC09 reserved word", "reserved": reserved})
 
 
+def bundle_roundtrip(ctx):
+    """with output_dependencies the program travels through the procedure bank (split into lines, re-joined): what comes
+    out after the `procedure <name>` header must still be the statements convert() emits without dependencies - one
+    complete statement line per line, every literal and comment closed - whatever characters literals contain"""
+    specials = ["\x0c", "\x0b", "\x1c", "\x1d", "\x1e", "\x85", "\u2028", "\u2029", "\t", "\x7f", " ", "(*", "*)", "\\", "REM", "'"]
+    progs = ['10 PRINT "HI" : GOTO 10', "10 FOR I = 1 TO 2 : NEXT I", "10 CLS : SOUND 1 , 2"]
+    for ch in specials:
+        progs += [f'10 PRINT "A{ch}B"', f"10 REM A{ch}B", f"10 DATA X{ch}Y , 2\n20 READ A$ , B", f'10 A$ = HEX$ ( 1 ) + "P{ch}Q"', f'10 A$ = "U{ch}V']
+    for src in progs:
+        plain = classify(src + "\n", plain=False, add_standard_prefix=True, add_suffix=True, skip_procedure_headers=True)
+        deps = classify(src + "\n", plain=False, add_standard_prefix=True, add_suffix=True, skip_procedure_headers=False, output_dependencies=True, procname="prog")
+        ctx.stats["programs"] += 2
+        ctx.stats["obligations"] += 1
+        if plain[0] != "ok" or deps[0] != "ok":
+            if plain[0] != deps[0]:
+                ctx.violation("bundle:status-differs", f"{src!r}: without dependencies {plain[0]}, with dependencies {deps[0]}", {"source": src})
+            else:
+                ctx.stats["identity"] += 1
+            continue
+        marker = "procedure prog\n"
+        i = deps[1].rfind(marker)
+        body = deps[1][i + len(marker):] if i >= 0 else None
+        ok = body is not None and [ln.rstrip() for ln in body.rstrip("\n").split("\n")] == [ln.rstrip() for ln in plain[1].rstrip("\n").split("\n")]
+        if ok:
+            try:
+                b09front.parse_program(body)
+            except SyntaxErr as e:
+                ok = False
+                ctx.violation("bundle:program-part-unparsable", f"{src!r}: {e}", {"source": src, "options": dict(output_dependencies=True, procname="prog", skip_procedure_headers=False)})
+                continue
+            ctx.stats["identity"] += 1
+        else:
+            cls = "control-char" if any(c in src for c in specials[:8]) else "other"
+            ctx.violation(f"bundle:program-part-changed:{cls}", f"{src!r}: the statements after `procedure prog` differ from the output without dependencies", {"source": src, "options": dict(output_dependencies=True, procname="prog", skip_procedure_headers=False)})
+
+
 def run(tier):
     ctx = Ctx("C07", tier, "translation_validation", technique="independent BASIC09 reader over real convert() output (structural) + z3 regex queries over the real grammar regexes (content closure, reserved identifiers)")
     smt.reset_stats()
@@ -193,6 +229,7 @@ def run(tier):
     ctx.extra["program_status"] = statuses
     content_lemmas(ctx)
     reserved_lemma(ctx)
+    bundle_roundtrip(ctx)
     ctx.add_solver_stats(smt.STATS.export())
     ctx.extra["solver"] = {"z3": smt.z3_version()}
     ctx.explanation = "structural acceptance by the independent BASIC09 reader is decided per program (no solver); the content and identifier lemmas are z3 regex queries over the real grammar regexes with sentinel-derived emission templates"
